@@ -21,7 +21,8 @@ META = {
             "sorted. (3) evolve_pdfs, evaluated with a mock solver / archive / exporter: every member is applied with the "
             "explicit target grid, the info receives the x range of the grid actually written (target grid if given, else the "
             "operator grid) and the number of members, and the data handed to the exporter are, block by block (one per nf, "
-            "scales sorted), value[(x, Q), pid] = x * applied[(Q^2, nf)][pid][index of x] on exactly the written grid.",
+            "scales sorted), value[(x, Q), pid] = x * applied[(Q^2, nf)][pid][index of x] on exactly the written grid."
+            " The alpha_s instance lists two scales in two flavour patches each.",
     "note": "The printed-precision round trip of data files and the files themselves are not decided.",
     "technique": "partial evaluation with symbolic cards and mock collaborators + exact comparison / identity testing",
     "engine": "sa",
